@@ -1,9 +1,15 @@
 #!/bin/bash
-# dev/revtest.sh <commit> <Cxx> [tier] — reverse-apply a fix commit on /repo's working tree, run the check, restore.
-c=$1; p=$2; t=${3:-quick}
+# dev/revtest.sh <commit>[,<commit>…] <Cxx> [tier] — reverse-apply fix commits (newest first) on /repo's working tree, run the check, restore.
+cs=$1; p=$2; t=${3:-quick}
 cd /repo || exit 2
-git diff --quiet || { echo "/repo not clean"; exit 2; }
-git diff $c $c~1 > /tmp/revtest.$$.diff
-git apply /tmp/revtest.$$.diff 2>/dev/null || git apply --3way /tmp/revtest.$$.diff 2>/dev/null || { echo "reverse patch does not apply"; rm -f /tmp/revtest.$$.diff; exit 2; }
-(cd /verif && ./check.sh $p $t 2>&1 | grep -v "^KNOWN-FINDING" | grep "violated:\|VIOLATION\|UNDECIDED\|undecided:\|obligations" | cut -c1-420)
-git -C /repo checkout HEAD -- . ; rm -f /tmp/revtest.$$.diff
+git diff --quiet && git diff --cached --quiet || { echo "/repo not clean"; exit 2; }
+ok=1
+for c in ${cs//,/ }; do
+  git diff $c $c~1 > /tmp/revtest.$$.diff
+  git apply /tmp/revtest.$$.diff 2>/dev/null || git apply --3way /tmp/revtest.$$.diff >/dev/null 2>&1 || { echo "reverse patch of $c does not apply"; ok=0; break; }
+done
+rm -f /tmp/revtest.$$.diff
+if [ $ok = 1 ]; then
+  (cd /verif && ./check.sh $p $t 2>&1 | grep -v "^KNOWN-FINDING" | grep "violated:\|VIOLATION\|UNDECIDED\|undecided:\|obligations" | cut -c1-420)
+fi
+git -C /repo reset -q --hard HEAD
